@@ -181,6 +181,9 @@ def run_shard(spec, rec):
     rec.space(name, spec["total"], 0)
     done = 0
     for i in range(spec["start"], spec["start"] + spec["n"]):
+        # requests on other grid families in between: what an earlier request asked for must not
+        # influence the class of later results (no state may be shared between calls)
+        interfere(i, rec)
         case = {"kind": "configs", "config": allc[i], "variant": spec["variant"], "seed": spec["seed"]}
         with rec.case("configs", case):
             try:
@@ -189,6 +192,36 @@ def run_shard(spec, rec):
                 rec.harness_error(f"config {i}", e)
         done += 1
     rec.space(name, spec["total"], done)
+
+
+_pool: list = []
+
+
+def interfere(i, rec):
+    """Unjudged request on another grid family (cycled), with modes and a width."""
+    import droplets
+    import pde
+
+    if not _pool:
+        def blob(grid, pos, R):
+            return droplets.DiffuseDroplet(pos, R, 0.8).get_phase_field(grid)
+
+        g = pde.CylindricalSymGrid(5.0, (0.0, 8.0), (6, 10))
+        _pool.append((blob(g, [0, 0, 4.0], 2.5), 2))
+        g = pde.UnitGrid([7, 7, 7])
+        _pool.append((blob(g, [3.4, 3.6, 3.5], 2.2), 3))
+        g = pde.UnitGrid([10, 10], periodic=True)
+        _pool.append((blob(g, [5.2, 4.9], 3.0), 1))
+        g = pde.SphericalSymGrid(6.0, 8)
+        _pool.append((blob(g, [0, 0, 0], 3.0), 2))
+        g = pde.CylindricalSymGrid(5.0, (0.0, 8.0), (6, 10), periodic_z=True)
+        _pool.append((blob(g, [0, 0, 4.0], 2.0), 1))
+    field, modes = _pool[i % len(_pool)]
+    try:
+        droplets.locate_droplets(field, modes=modes, interface_width=[None, 0.5][i % 2])
+        rec.hit("interfering-requests")
+    except Exception:  # noqa: BLE001 - not the subject here (C09 covers it)
+        rec.count("interfering_request_raised")
 
 
 def replay(v, rec):
